@@ -225,7 +225,7 @@ func (m *modelL2) stepDeposit(x *opchildtypes.MsgFinalizeTokenDeposit, bc blockC
 		return stepOut{P: p}
 	}
 	if x.Sequence > m.NextL1Seq {
-		p.failBecause("l2deposit.sequence-ahead", "deposit-sequence-ahead", "C06")
+		p.failBecause("l2deposit.sequence-ahead", "deposit-sequence-ahead", "C06", "C08")
 		return stepOut{P: p}
 	}
 	if x.Sequence < m.NextL1Seq {
